@@ -17,15 +17,17 @@ import (
 // its own credentials; the transport scans every outgoing request for secrets that belong to
 // the other registry.
 type twoRegistries struct {
-	mode      map[string]int    // host -> 0 open, 1 Basic, 2 Bearer(own realm), 3 Bearer(shared realm host)
-	secrets   map[string][]string // host -> secrets that must never reach another host
-	issued    map[string]string // access token -> registry host it was issued for
-	nTok      int
-	sends     map[string]int // requests per host
-	tokenHits map[string]int // token fetches per registry
-	leak      string
-	misuse    string
-	log       []string
+	mode       map[string]int      // host -> 0 open, 1 Basic, 2 Bearer(own realm), 3 Bearer(shared realm host)
+	secrets    map[string][]string // host -> secrets that must never reach another host
+	issued     map[string]string   // access token -> registry host it was issued for
+	nTok       int
+	sends      map[string]int // requests per host
+	tokenHits  map[string]int // token fetches per registry
+	leak       string
+	misuse     string
+	log        []string
+	advertised map[string]string // realm host -> registry that advertised it last
+	service    map[string]string // registry -> service name it puts in its challenge (its own name or the other registry's)
 }
 
 func (p *twoRegistries) scan(req *http.Request, dstHost string, allowed []string) {
@@ -91,7 +93,7 @@ func (p *twoRegistries) RoundTrip(req *http.Request) (*http.Response, error) {
 		p.scan(req, host, []string{host})
 		p.sends[host]++
 		auth := req.Header.Get("Authorization")
-		if strings.HasPrefix(auth, "Bearer ") && p.issued[auth[7:]] == "" {
+		if strings.HasPrefix(auth, "Bearer ") && p.issued[auth[7:]] == "" && !strings.HasPrefix(auth[7:], "access-") {
 			// a Bearer header must carry a token some token service issued, never a cached Basic secret
 			p.misuse = "Bearer header with a token that no token service issued: " + auth
 		}
@@ -106,15 +108,16 @@ func (p *twoRegistries) RoundTrip(req *http.Request) (*http.Response, error) {
 			r.Header.Set("Www-Authenticate", `Basic realm="`+host+`"`)
 			return r, nil
 		default:
-			if strings.HasPrefix(auth, "Bearer ") && p.issued[auth[7:]] == host {
+			if strings.HasPrefix(auth, "Bearer ") && (p.issued[auth[7:]] == host || auth[7:] == "access-"+host) {
 				return p.resp(req, http.StatusOK, "ok"), nil
 			}
 			realmHost := "auth." + host
 			if p.mode[host] == 3 {
 				realmHost = "auth.shared.io"
 			}
+			p.advertised[realmHost] = host
 			r := p.resp(req, http.StatusUnauthorized, "")
-			r.Header.Set("Www-Authenticate", `Bearer realm="https://`+realmHost+`/token",service="`+host+`",scope="repository:x:pull"`)
+			r.Header.Set("Www-Authenticate", `Bearer realm="https://`+realmHost+`/token",service="`+p.service[host]+`",scope="repository:x:pull"`)
 			return r, nil
 		}
 	case "auth.a.io", "auth.b.io", "auth.shared.io":
@@ -129,12 +132,14 @@ func (p *twoRegistries) RoundTrip(req *http.Request) (*http.Response, error) {
 				}
 			}
 		}
-		allowed := []string{svc}
-		p.scan(req, host, allowed)
-		p.tokenHits[svc]++
+		// a token service may only see the secrets of the registry that advertised it
+		owner := p.advertised[host]
+		_ = svc
+		p.scan(req, host, []string{owner})
+		p.tokenHits[owner]++
 		p.nTok++
-		tok := fmt.Sprintf("tok%d-%s", p.nTok, svc)
-		p.issued[tok] = svc
+		tok := fmt.Sprintf("tok%d-%s", p.nTok, owner)
+		p.issued[tok] = owner
 		if req.Method == http.MethodPost {
 			return p.resp(req, http.StatusOK, `{"access_token":"`+tok+`"}`), nil
 		}
@@ -150,22 +155,33 @@ func (p *twoRegistries) RoundTrip(req *http.Request) (*http.Response, error) {
 func VerifC16Hosts() {
 	k := verifrt.Param("k", 2)
 	peer := &twoRegistries{mode: map[string]int{}, secrets: map[string][]string{}, issued: map[string]string{},
-		sends: map[string]int{}, tokenHits: map[string]int{}}
+		sends: map[string]int{}, tokenHits: map[string]int{}, advertised: map[string]string{}, service: map[string]string{}}
 	for _, h := range []string{"a.io", "b.io"} {
 		peer.mode[h] = verifrt.Choice(4)
-		peer.secrets[h] = []string{"pass-" + h, "refresh-" + h}
+		peer.secrets[h] = []string{"pass-" + h, "refresh-" + h, "access-" + h}
+		peer.service[h] = h
 	}
-	useRefresh := verifrt.Bool()
+	// a registry may name the other registry as the token "service" in its challenge
+	if verifrt.Bool() {
+		peer.service["a.io"] = "b.io"
+	}
+	credKind := verifrt.Choice(3) // 0 password, 1 refresh token, 2 access token
+	noCredForA := verifrt.Bool()  // registry a.io has no credential configured
 	client := &Client{
 		Client: &http.Client{Transport: peer},
 		Credential: func(ctx context.Context, hostport string) (Credential, error) {
 			switch hostport {
 			case "a.io", "b.io":
-				c := Credential{Username: "user-" + hostport, Password: "pass-" + hostport}
-				if useRefresh {
-					c = Credential{RefreshToken: "refresh-" + hostport}
+				if hostport == "a.io" && noCredForA {
+					return EmptyCredential, nil
 				}
-				return c, nil
+				switch credKind {
+				case 1:
+					return Credential{RefreshToken: "refresh-" + hostport}, nil
+				case 2:
+					return Credential{AccessToken: "access-" + hostport}, nil
+				}
+				return Credential{Username: "user-" + hostport, Password: "pass-" + hostport}, nil
 			}
 			return EmptyCredential, nil
 		},
@@ -182,9 +198,10 @@ func VerifC16Hosts() {
 		if step > 0 && verifrt.Param("switch", 1) != 0 && verifrt.Bool() {
 			peer.mode[host] = verifrt.Choice(4) // the registry changes its scheme mid-history
 		}
-		if useRefresh && peer.mode[host] == 1 {
+		if credKind != 0 && peer.mode[host] == 1 {
 			continue // basic auth needs a username and password
 		}
+		valid := !(host == "a.io" && noCredForA)
 		before := peer.sends[host]
 		beforeTok := peer.tokenHits[host]
 		req, err := http.NewRequestWithContext(context.Background(), http.MethodGet, "https://"+host+"/v2/x/tags/list", nil)
@@ -195,9 +212,13 @@ func VerifC16Hosts() {
 		resp, err := client.Do(req)
 		verifrt.Assert(peer.leak == "", "C16.no-leak")
 		verifrt.Assert(peer.misuse == "", "C16.cache.token-reused-only-for-its-scheme")
-		verifrt.Assert(err == nil, "C16.hosts.request-succeeds")
+		if valid {
+			verifrt.Assert(err == nil, "C16.hosts.request-succeeds")
+			if err == nil {
+				verifrt.Assert(resp.StatusCode == http.StatusOK, "C16.bounded.non-401-answer")
+			}
+		}
 		if err == nil {
-			verifrt.Assert(resp.StatusCode == http.StatusOK, "C16.bounded.non-401-answer")
 			resp.Body.Close()
 		}
 		verifrt.Assert(peer.sends[host]-before <= 3, "C16.bounded.at-most-three-sends")
